@@ -190,7 +190,7 @@ def _fixed_cases():
 
 def gen_cases(rng, tier):
     cases = _fixed_cases()
-    n = 560 if tier == "quick" else 9000
+    n = 1000 if tier == "quick" else 20000
     for i in range(n):
         cls = CLASSES[i % 4] if rng.random() < 0.7 else rng.choice(CLASSES)
         r = rng.random()
